@@ -3,7 +3,7 @@
   weighted mean (weights 1..k, newest heaviest) of exactly the last k = min(t, n) inputs, for
   every period, every finite stream, every prefix.  Follows the SimpleMovingAverage template.
 -/
-import TaRs.Lemmas.Core.WeightedMovingAverage
+import TaRs.Lemmas.WeightedMovingAverage
 import TaRs.Lemmas.Ring
 import TaRs.Lemmas.XLemmas
 import TaRs.Lemmas.Machine
@@ -122,10 +122,7 @@ theorem step {n : Nat} {s : WeightedMovingAverage (X K)} {h : List K} (i : Inv n
   · -- warming up
     have hc : c = h.length := by omega
     have hcp : c < p := by omega
-    have hold' : d[ix]'hix = X.fin (0 : K) := by
-      have := hcur
-      rw [Array.getElem?_eq_getElem hix] at this
-      simpa [hl] using this
+    have hold : d[ix]? = some (X.fin (0 : K)) := by simpa [hl] using hcur
     have hw : lastN p h = h := lastN_of_le p h (by omega)
     have hw' : lastN p (h ++ [x]) = h ++ [x] := lastN_of_le p _ (by simp; omega)
     have hmin : min (h.length + 1) p = h.length + 1 := by omega
@@ -134,12 +131,11 @@ theorem step {n : Nat} {s : WeightedMovingAverage (X K)} {h : List K} (i : Inv n
               weight := X.fin ((c + 1 : Nat) : K),
               sum := X.fin (wsum (lastN p (h ++ [x]))), sum_flat := X.fin (lastN p (h ++ [x])).sum,
               deque := d.setIfInBounds ix (X.fin x) }, ?_, ⟨rfl, hsmall, ?_, ?_, rfl, rfl⟩⟩
-    · unfold next
-      simp (disch := omega) only [index_eq, setIndex_eq, uadd_eq]
+    · rw [next_eq _ _ _ (inv_wf i) hold]
       rw [hw] at hsum hsf
       push_cast at hden
       by_cases c1 : ix + 1 < p <;>
-        simp (disch := omega) [c1, hl, hold', hsum, hsf, hw', wsum_append_one, wma, hc,
+        simp (disch := omega) [c1, hl, hsum, hsf, hw', wsum_append_one, wma, hc,
           X.div_fin _ _ h2, X.div_fin _ _ hden]
     · simpa [hcp] using hpush
     · simp [hc, hmin]
@@ -147,11 +143,9 @@ theorem step {n : Nat} {s : WeightedMovingAverage (X K)} {h : List K} (i : Inv n
     have hc : c = p := by omega
     have hcp : ¬ c < p := by omega
     have hge : p ≤ h.length := by omega
-    have hold' : d[ix]'hix = X.fin (h[h.length - p]?.getD 0) := by
-      have := hcur
-      rw [Array.getElem?_eq_getElem hix] at this
+    have hold : d[ix]? = some (X.fin (h[h.length - p]?.getD 0)) := by
       have hlt : h.length - p < h.length := by omega
-      simpa [hl, List.getElem?_map, List.getElem?_eq_getElem hlt] using this
+      simpa [hl, List.getElem?_map, List.getElem?_eq_getElem hlt] using hcur
     have hne : lastN p h ≠ [] := by
       intro e; have hlen := lastN_length p h; rw [e, List.length_nil] at hlen; omega
     have hlen : (lastN p h).length = p := by rw [lastN_length]; omega
@@ -177,11 +171,10 @@ theorem step {n : Nat} {s : WeightedMovingAverage (X K)} {h : List K} (i : Inv n
               weight := X.fin ((p : Nat) : K),
               sum := X.fin (wsum (lastN p (h ++ [x]))), sum_flat := X.fin (lastN p (h ++ [x])).sum,
               deque := d.setIfInBounds ix (X.fin x) }, ?_, ⟨rfl, hsmall, ?_, ?_, rfl, rfl⟩⟩
-    · unfold next
-      simp (disch := omega) only [index_eq, setIndex_eq, uadd_eq]
+    · rw [next_eq _ _ _ (inv_wf i) hold]
       rw [hmin] at hwt
       by_cases c1 : ix + 1 < p <;>
-        simp (disch := omega) [c1, hc, hold', hsum, hsf, hwt, hsum', hws', wma, hlen',
+        simp (disch := omega) [c1, hc, hsum, hsf, hwt, hsum', hws', wma, hlen',
           X.div_fin _ _ h2, X.div_fin _ _ hden]
     · simpa [hcp] using hpush
     · simp [hmin']
